@@ -13,14 +13,25 @@ ChildrenDef ==
     [] Shape = "diamond" -> [A |-> <<"B", "C">>, B |-> <<"D">>, C |-> <<"D">>, D |-> <<>>, E |-> <<>>]
     [] Shape = "shared"  -> [A |-> <<"C", "D">>, B |-> <<"D", "E">>, C |-> <<"E">>, D |-> <<"E">>, E |-> <<>>]
     [] Shape = "twice"   -> [A |-> <<"B", "B", "C">>, B |-> <<"C">>, C |-> <<>>, D |-> <<"A", "C">>, E |-> <<>>]
+    [] Shape = "cycle"   -> [A |-> <<"B">>, B |-> <<"C", "A">>, C |-> <<>>, D |-> <<"E", "D">>, E |-> <<>>]     \* A -> B -> A, and D -> D: not DAGs
 TopListsDef ==
   CASE Shape = "chain"   -> {<<"A">>, <<"B">>, <<"C">>, <<"C", "A">>}
     [] Shape = "diamond" -> {<<"A">>, <<"B">>, <<"D">>, <<"C", "B">>, <<"A", "D">>}
     [] Shape = "shared"  -> {<<"A">>, <<"B">>, <<"E">>, <<"A", "B">>, <<"D", "C">>}
     [] Shape = "twice"   -> {<<"A">>, <<"D">>, <<"B">>, <<"C", "D">>}
+    [] Shape = "cycle"   -> {<<"A">>, <<"B">>, <<"C">>, <<"D">>, <<"E">>, <<"C", "B">>, <<"E", "D">>}
 Init == SInit /\ hist = <<>>
 Next == \/ (\E tops \in TopLists : Call(tops) /\ hist' = Append(hist, tops))
         \/ ((VisitChild \/ VisitTop \/ ApplyExit \/ FailAt \/ NextPass) /\ UNCHANGED hist)
 Spec == Init /\ [][Next]_vars
+(* termination: under weak fairness of the scheduler's own steps every call ends - returned or raised -, circular hierarchies included
+   (the `Circular` decision is what makes that so); and nothing that sits on a cycle, or reaches one, is ever marked elaborated *)
+LiveSpec == Spec /\ WF_vars((VisitChild \/ VisitTop \/ ApplyExit \/ NextPass) /\ UNCHANGED hist)
+EveryCallEnds == [](call.active => <>(~call.active))
+RECURSIVE ReachC(_, _)
+ReachC(ms, fuel) == IF fuel = 0 THEN ms ELSE ReachC(ms \cup UNION {{Children[m][k] : k \in 1..Len(Children[m])} : m \in ms}, fuel - 1)
+OnCycle(m) == m \in ReachC({Children[m][k] : k \in 1..Len(Children[m])}, Cardinality(Mods))
+ReachesCycle(m) == \E x \in ReachC({m}, Cardinality(Mods)) : OnCycle(x)
+CyclicNeverMarked == \A m \in marked : ~ReachesCycle(m)
 Emit == IF ncalls' = MaxCalls /\ ncalls < MaxCalls THEN PrintT(<<"CASE", ToJson([shape |-> Shape, calls |-> hist'])>>) ELSE TRUE
 =============================================================================
